@@ -239,6 +239,10 @@ Qed.
 Lemma gen_switchcase_fixed : gen_switchcase_index_is_loop_var = true.
 Proof. reflexivity. Qed.
 
+(* (T) visitors.Break/Continue call check_jump_out_of_defer and visitors.Defer marks its block scope *)
+Lemma gen_jump_check_present : gen_break_continue_check_defer_block = true.
+Proof. reflexivity. Qed.
+
 Lemma recorded_case_id : forall c, recorded_case c = c.
 Proof. intro c. unfold recorded_case. rewrite gen_switchcase_fixed. reflexivity. Qed.
 
@@ -248,18 +252,18 @@ Definition block_rel (ch:list fscope) (ftok:bool) : Prop :=
   | _ => True
   end.
 
-Lemma loop_found_plain : forall s ch, fl s = false -> ff s = false -> loop_found (s :: ch) = loop_found ch.
-Proof. intros s ch H1 H2. unfold loop_found. simpl. rewrite H1, H2. reflexivity. Qed.
+Lemma break_ok_plain : forall s ch, fl s = false -> ff s = false -> fdb s = false -> break_ok (s :: ch) = break_ok ch.
+Proof. intros s ch H1 H2 H3. unfold break_ok, loop_found. simpl. rewrite H1, H2, H3. reflexivity. Qed.
 
 Lemma block_rel_plain : forall ch ftok, block_rel (plain_scope :: ch) ftok.
 Proof. intros. exact I. Qed.
 
 Lemma flow_sound :
-  (forall s, forall ch id, aflow_stmt ch id s = [] -> rflow_stmt (loop_found ch) s = true) /\
+  (forall s, forall ch id, aflow_stmt ch id s = [] -> rflow_stmt (break_ok ch) s = true) /\
   (forall b, forall ch ftok, block_rel ch ftok -> aflow_block ch false b = [] ->
-      rflow_block (loop_found ch) ftok b = true) /\
+      rflow_block (break_ok ch) ftok b = true) /\
   (forall cs, forall ch n els c, (c + ncases cs = S n)%nat ->
-      aflow_cases ch n els c cs = [] -> rflow_cases (loop_found ch) els cs = true).
+      aflow_cases ch n els c cs = [] -> rflow_cases (break_ok ch) els cs = true).
 Proof.
   apply sbc_mutind; try (intros; reflexivity).
   - (* Func *) intros f ps b IH ch id H. cbn [aflow_stmt rflow_stmt] in *.
@@ -281,16 +285,16 @@ Proof.
     + exact (IHc (plain_scope :: ch) (ncases cs) els 1%nat eq_refl H1).
     + exact (IHd (plain_scope :: plain_scope :: ch) false (block_rel_plain _ _) H2).
   - (* Break *) intros ch id H. cbn [aflow_stmt rflow_stmt] in *.
-    destruct (loop_found ch); [reflexivity | discriminate].
+    destruct (break_ok ch); [reflexivity | discriminate].
   - (* Continue *) intros ch id H. cbn [aflow_stmt rflow_stmt] in *.
-    destruct (loop_found ch); [reflexivity | discriminate].
+    destruct (break_ok ch); [reflexivity | discriminate].
   - (* Fallthrough as a statement: only reached through blocks *) intros ch id H. cbn [aflow_stmt] in H.
     discriminate.
   - (* Defer *) intros b IH ch id H. cbn [aflow_stmt rflow_stmt] in *.
-    exact (IH (plain_scope :: ch) false (block_rel_plain _ _) H).
+    exact (IH (defer_scope :: ch) false I H).
   - (* BCons *) intros id s IHs r IHr ch ftok Hrel H.
     assert (Hgen : aflow_stmt ch id s ++ aflow_block ch false r = [] ->
-                   rflow_stmt (loop_found ch) s && rflow_block (loop_found ch) ftok r = true).
+                   rflow_stmt (break_ok ch) s && rflow_block (break_ok ch) ftok r = true).
     { intros Happ. apply app_nil_inv in Happ as [H1 H2]. apply andb_true_iff. split.
       - exact (IHs ch id H1).
       - exact (IHr ch ftok Hrel H2). }
@@ -298,7 +302,7 @@ Proof.
     (* Fallthrough *)
     cbn [aflow_block rflow_block] in *. apply app_nil_inv in H as [H1 H2].
     unfold fall_errs in H1. unfold block_rel in Hrel.
-    destruct ch as [|[l f [[[c' n] els]|]] ch']; try discriminate.
+    destruct ch as [|[l f db [[[c' n] els]|]] ch']; try discriminate.
     cbn [negb andb] in H1.
     destruct (Nat.ltb c' n || els) eqn:E; [|discriminate]. cbn [app] in H1.
     destruct (is_bnil r) eqn:Er; [|discriminate].
@@ -307,7 +311,7 @@ Proof.
     cbn [aflow_cases rflow_cases ncases] in *.
     apply app_nil_inv in H as [H1 H2].
     apply andb_true_iff. split.
-    + rewrite <- (loop_found_plain (mkf false false (Some (recorded_case c, n, els))) ch eq_refl eq_refl).
+    + rewrite <- (break_ok_plain (mkf false false false (Some (recorded_case c, n, els))) ch eq_refl eq_refl eq_refl).
       apply (IHb _ _); [|exact H1].
       unfold block_rel. rewrite recorded_case_id. destruct r as [|b2 r2].
       * (* last case: c = n *) cbn [ncases] in Hc. intro Hx. apply orb_true_iff in Hx as [Hx|Hx]; [|exact Hx].
@@ -318,14 +322,14 @@ Qed.
 
 (* ---- completeness of the control-flow checks: rule-abiding placements are never rejected *)
 Definition case_compl (ch:list fscope) (ftok:bool) : Prop :=
-  ftok = true -> exists c' n els rest, ch = mkf false false (Some (c', n, els)) :: rest /\ (Nat.ltb c' n || els) = true.
+  ftok = true -> exists c' n els rest, ch = mkf false false false (Some (c', n, els)) :: rest /\ (Nat.ltb c' n || els) = true.
 
 Lemma flow_complete :
-  (forall s, forall ch id, rflow_stmt (loop_found ch) s = true -> aflow_stmt ch id s = []) /\
-  (forall b, forall ch ftok, case_compl ch ftok -> rflow_block (loop_found ch) ftok b = true ->
+  (forall s, forall ch id, rflow_stmt (break_ok ch) s = true -> aflow_stmt ch id s = []) /\
+  (forall b, forall ch ftok, case_compl ch ftok -> rflow_block (break_ok ch) ftok b = true ->
       aflow_block ch false b = []) /\
   (forall cs, forall ch n els c, (c + ncases cs = S n)%nat -> (1 <= c)%nat ->
-      rflow_cases (loop_found ch) els cs = true -> aflow_cases ch n els c cs = []).
+      rflow_cases (break_ok ch) els cs = true -> aflow_cases ch n els c cs = []).
 Proof.
   assert (Hnc : forall ch, case_compl (plain_scope :: ch) false) by (intros ch H; discriminate H).
   apply sbc_mutind; try (intros; reflexivity).
@@ -343,9 +347,10 @@ Proof.
   - (* Break *) intros ch id H. cbn [aflow_stmt rflow_stmt] in *. rewrite H. reflexivity.
   - (* Continue *) intros ch id H. cbn [aflow_stmt rflow_stmt] in *. rewrite H. reflexivity.
   - (* Fallthrough *) intros ch id H. cbn [rflow_stmt] in H. discriminate.
-  - (* Defer *) intros b IH ch id H. cbn [aflow_stmt rflow_stmt] in *. exact (IH (plain_scope :: ch) false (Hnc _) H).
+  - (* Defer *) intros b IH ch id H. cbn [aflow_stmt rflow_stmt] in *.
+    apply (IH (defer_scope :: ch) false); [intro Hx; discriminate Hx | exact H].
   - (* BCons *) intros id s IHs r IHr ch ftok Hcc H.
-    assert (Hgen : rflow_stmt (loop_found ch) s && rflow_block (loop_found ch) ftok r = true ->
+    assert (Hgen : rflow_stmt (break_ok ch) s && rflow_block (break_ok ch) ftok r = true ->
                    aflow_stmt ch id s ++ aflow_block ch false r = []).
     { intro Hx. apply andb_true_iff in Hx as [H1 H2]. rewrite (IHs ch id H1), (IHr ch ftok Hcc H2). reflexivity. }
     destruct s; try (cbn [aflow_block rflow_block] in *; apply Hgen; exact H).
@@ -355,7 +360,7 @@ Proof.
   - (* CCons *) intros b IHb r IHr ch n els c Hc Hc1 H. cbn [aflow_cases rflow_cases ncases] in *.
     apply andb_true_iff in H as [H1 H2].
     rewrite (IHr ch n els (S c)); [| lia | lia | exact H2]. rewrite app_nil_r.
-    apply (IHb (mkf false false (Some (recorded_case c, n, els)) :: ch) (match r with CNil => els | CCons _ _ => true end)); [|exact H1].
+    apply (IHb (mkf false false false (Some (recorded_case c, n, els)) :: ch) (match r with CNil => els | CCons _ _ => true end)); [|exact H1].
     intro Hft. exists (recorded_case c), n, els, ch. split; [reflexivity|].
     destruct r as [|b2 r2].
     + rewrite Hft. apply orb_true_r.
